@@ -26,10 +26,10 @@ Proof.
     destruct E' as [E1 E2]. split; [auto|]. intro i. symmetry. apply E2.
 Qed.
 
-Theorem check_equal_sound : forall l c tag pos diag r,
-  check_equal l = Some (verdict c tag pos diag, r) -> c = 0 \/ c = 1 -> c = 0 /\ r = [] /\ equal_case_ok l.
+Theorem check_equal_sound : forall l c v r,
+  check_equal l = Some (c :: v, r) -> c = 0 \/ c = 1 -> c = 0 /\ r = [] /\ equal_case_ok l.
 Proof.
-  intros l c tag pos diag r H Hc. unfold check_equal in H. pinv H. subst.
+  intros l c v r H Hc. unfold check_equal in H. pinv H. subst.
   destruct (g_wfb a && g_wfb a0) eqn:Ewf; cbn [negb] in Ev; [|rejected Ev].
   apply andb_prop in Ewf. destruct Ewf as [W1 W2]. apply g_wfb_spec in W1, W2.
   cbv zeta in Ev. apply ok_or_mismatch in Ev; [|exact Hc]. destruct Ev as [W ->]. ff_split W.
@@ -61,10 +61,10 @@ Proof.
   - rewrite (IH _ H k l Hk). f_equal. lia.
 Qed.
 
-Theorem check_bigraph_sound : forall l c tag pos diag r,
-  check_bigraph l = Some (verdict c tag pos diag, r) -> c = 0 \/ c = 1 -> c = 0 /\ r = [] /\ bigraph_case_ok l.
+Theorem check_bigraph_sound : forall l c v r,
+  check_bigraph l = Some (c :: v, r) -> c = 0 \/ c = 1 -> c = 0 /\ r = [] /\ bigraph_case_ok l.
 Proof.
-  intros l c tag pos diag r H Hc. unfold check_bigraph in H. pinv H. subst.
+  intros l c v r H Hc. unfold check_bigraph in H. pinv H. subst.
   destruct (g_wfb a) eqn:Ewf; cbn [negb] in Ev; [|rejected Ev]. apply g_wfb_spec in Ewf.
   cbv zeta in Ev. apply ok_or_mismatch in Ev; [|exact Hc]. destruct Ev as [W ->]. ff_split W.
   repeat match goal with H : (_ =? _) = true |- _ => apply Z.eqb_eq in H end.
@@ -161,7 +161,7 @@ Definition simplify_case_ok (rest : list Z) : Prop :=
   exists g weighted ws rg rws wg obs,
     rest = enc_graph g ++ weighted :: enc_Zss ws ++ 0%Z :: enc_graph rg ++ enc_Zss rws ++ 1%Z :: enc_graph g /\
     g_wf g /\
-    (if (weighted =? 0)%Z then wg = unit_weights g
+    (if (weighted =? 0)%Z then wg = unit_weights g /\ ws = []
      else Forall2 (fun tw a => wadj_decodes (fst tw) (snd tw) a) (combine g ws) wg /\ length ws = length g) /\
     map (map fst) wg = g /\
     Forall2 (fun tw a => wadj_decodes (fst tw) (snd tw) a) (combine rg rws) obs /\ length rws = length rg /\
@@ -177,10 +177,10 @@ Qed.
 Lemma Forall2_map_same {A B} (R : A -> B -> Prop) (f : A -> B) : (forall a, R a (f a)) -> forall l, Forall2 R l (map f l).
 Proof. intros H. induction l; cbn; constructor; auto. Qed.
 
-Theorem check_simplify_sound : forall l c tag pos diag r,
-  check_simplify l = Some (verdict c tag pos diag, r) -> (c = 0 \/ c = 1)%Z -> c = 0%Z /\ r = [] /\ simplify_case_ok l.
+Theorem check_simplify_sound : forall l c v r,
+  check_simplify l = Some (c :: v, r) -> (c = 0 \/ c = 1)%Z -> c = 0%Z /\ r = [] /\ simplify_case_ok l.
 Proof.
-  intros l c tag pos diag r H Hc. unfold check_simplify in H. pinv H. subst.
+  intros l c v r H Hc. unfold check_simplify in H. pinv H. subst.
   destruct (g_wfb a) eqn:Ewf; cbn [negb] in Ev; [|rejected Ev]. apply g_wfb_spec in Ewf.
   destruct (if (a0 =? 0)%Z then Some (unit_weights a) else zipwg a a1) as [wg|] eqn:Ewg; [|rejected Ev].
   destruct (zipwg a3 a4) as [obs|] eqn:Eobs; [|destruct (a2 =? 0)%Z; rejected Ev].
@@ -188,6 +188,7 @@ Proof.
   repeat match goal with H : (_ =? _)%Z = true |- _ => apply Z.eqb_eq in H end.
   match goal with H : (_ =? _)%nat = true |- _ => apply Nat.eqb_eq in H; rename H into HL end.
   match goal with H : wgraph_eqb _ _ = true |- _ => apply wgraph_eqb_spec in H; rename H into HE end.
+  match goal with H : negb (_ =? 0)%Z || (length _ =? 0)%nat = true |- _ => rename H into Hws end.
   geq. subst. split; [reflexivity|]. split; [reflexivity|].
   destruct (zipwg_spec _ _ _ Eobs) as (O1 & O2 & O3).
   assert (Hfst : map (map fst) wg = a).
@@ -199,7 +200,8 @@ Proof.
     - injection Em as _ ->. apply IHHE. reflexivity. }
   exists a, a0, a1, a3, a4, wg, obs. split; [lay; subst; rewrite ?app_nil_r; reflexivity|].
   split; [exact Ewf|]. split.
-  { destruct (a0 =? 0)%Z; [injection Ewg as <-; reflexivity|]. destruct (zipwg_spec _ _ _ Ewg) as (? & ? & ?). auto. }
+  { destruct (a0 =? 0)%Z; [injection Ewg as <-; split; [reflexivity|]; cbn in Hws; apply Nat.eqb_eq in Hws; apply length_zero_iff_nil; exact Hws|].
+    destruct (zipwg_spec _ _ _ Ewg) as (? & ? & ?). auto. }
   split; [exact Hfst|]. split; [exact O1|]. split; [exact O2|]. split; [lia|]. split; [exact Hrows|].
   intro Ez. rewrite Ez in Ewg. injection Ewg as <-. unfold unit_weights in Hrows.
   apply Forall2_trans_lr with (R := fun (l : list N) (a : wadj) => a = map (fun o => (o, 1)) l) (S := simp_row_ok) (m := map (map (fun o => (o, 1))) a).
